@@ -25,7 +25,7 @@ def slice_cases(algo, name, nsym, seed, variants=1, extra=''):
     es = norm_edges(es)
     m = len(es)
     out = []
-    r = rng(hash((seed, name, nsym, algo)) & 0xffffffff)
+    r = rng(shash((seed, name, nsym, algo)) & 0xffffffff)
     for v in range(variants):
         symidx = sorted(r.sample(range(m), min(nsym, m)))
         fixed = [1] * m if v == 0 else [r.choice([1, 1, 2, 3]) for _ in range(m)]
@@ -45,7 +45,7 @@ def small_graphs(max_n=3):
 def random_slices(algo, seed, count, nsym, extra='', nmin=6, nmax=7, wmax=20):
     """seeded random connected graphs on 6..7 vertices with n+3..n+6 edges, `nsym` symbolic weights, the rest fixed in 1..wmax:
     each case covers ALL values of its symbolic weights against a concrete background (reaches graph shapes the exhaustive part cannot)"""
-    r = rng(hash((seed, algo, 'rs', nsym)) & 0xffffffff)
+    r = rng(shash((seed, algo, 'rs', nsym)) & 0xffffffff)
     out = []
     while len(out) < count:
         n = r.choice(list(range(nmin, nmax + 1)))
@@ -78,7 +78,7 @@ def exact_cases(tier, seed, algos=('signed', 'fvs', 'iso')):
             if full_ok:
                 cases.append('algo=%s n=%d edges=%s sym=all' % (algo, n, edges_str(g)))
             else:
-                r = rng(hash((seed, algo, tuple(g))) & 0xffffffff)
+                r = rng(shash((seed, algo, tuple(g))) & 0xffffffff)
                 ks = [3] if tier == 'quick' else [3, 4]
                 for k in ks:
                     symidx = sorted(r.sample(range(m), k))
@@ -92,7 +92,7 @@ def exact_cases(tier, seed, algos=('signed', 'fvs', 'iso')):
             # every 5-vertex graph (one labelling + a seeded relabelling) with exactly 5 edges and a cycle: C5, C4+pendant, triangle+tails, ...
             for g in iso_classes(5, max_m=5, min_m=5):
                 if dim(5, g) >= 1:
-                    r5 = rng(hash((seed, algo, tuple(g), 'q5')) & 0xffffffff)
+                    r5 = rng(shash((seed, algo, tuple(g), 'q5')) & 0xffffffff)
                     perm = list(range(5))
                     r5.shuffle(perm)
                     cases.append('algo=%s n=5 edges=%s sym=all' % (algo, edges_str(g)))
@@ -108,7 +108,7 @@ def exact_cases(tier, seed, algos=('signed', 'fvs', 'iso')):
                 m = len(g)
                 if dim(5, g) < 1:
                     continue
-                r = rng(hash((seed, algo, tuple(g), 5)) & 0xffffffff)
+                r = rng(shash((seed, algo, tuple(g), 5)) & 0xffffffff)
                 perm = list(range(5))
                 r.shuffle(perm)
                 order = list(range(m))
@@ -211,7 +211,7 @@ def approx_cases(tier, seed, algos=('approx_signed', 'approx_fvs', 'approx_iso')
                 if m <= maxfull:
                     cases.append('algo=%s k=%d n=%d edges=%s sym=all' % (algo, k, n, edges_str(g)))
                 else:
-                    r = rng(hash((seed, algo, k, tuple(g))) & 0xffffffff)
+                    r = rng(shash((seed, algo, k, tuple(g))) & 0xffffffff)
                     symidx = sorted(r.sample(range(m), 3 if tier == 'quick' else 4))
                     cases.append('algo=%s k=%d n=%d edges=%s sym=%s' % (algo, k, n, edges_str(g), ','.join(map(str, symidx))))
             if k == 0:
@@ -243,7 +243,7 @@ def spanner_cases(tier, seed):
             for kk in range(2, nn // 2 + 1):
                 nv, es = family('cyc%dc%d' % (nn, kk))
                 m = len(es)
-                r = rng(hash((seed, 'cyc', nn, kk, k)) & 0xffffffff)
+                r = rng(shash((seed, 'cyc', nn, kk, k)) & 0xffffffff)
                 for v in range(2 if tier == 'quick' else 4):
                     symidx = sorted(set([m - 1] + r.sample(range(m - 1), 2)))   # the chord and two cycle edges are symbolic
                     fixed = [r.randint(1, 9) for _ in range(m)]
@@ -489,27 +489,27 @@ def topo_cases(tier, seed, prefix='', full_max_quick=5, full_max_thorough=6, fam
         if m <= lim:
             cases.append('%sn=%d edges=%s sym=all%s' % (prefix, n, edges_str(g), extra))
         else:
-            r = rng(hash((seed, prefix, tuple(g))) & 0xffffffff)
+            r = rng(shash((seed, prefix, tuple(g))) & 0xffffffff)
             for k in ((3,) if tier == 'quick' else (3, 4)):
                 symidx = sorted(r.sample(range(m), k))
                 cases.append('%sn=%d edges=%s sym=%s%s' % (prefix, n, edges_str(g), ','.join(map(str, symidx)), extra))
     for f, ns in (fams_quick if tier == 'quick' else fams_thorough):
         n, es = family(f)
         es = norm_edges(es)
-        r = rng(hash((seed, prefix, f, ns)) & 0xffffffff)
+        r = rng(shash((seed, prefix, f, ns)) & 0xffffffff)
         symidx = sorted(r.sample(range(len(es)), ns)) if ns else []
         cases.append('%sn=%d edges=%s sym=%s fam=%s%s' % (prefix, n, edges_str(es), ','.join(map(str, symidx)) if symidx else 'none', f, extra))
     if tier == 'quick' and g5:
         for g in iso_classes(5, max_m=5, min_m=5):
             if dim(5, g) >= 1:
-                r = rng(hash((seed, prefix, tuple(g), 'q')) & 0xffffffff)
+                r = rng(shash((seed, prefix, tuple(g), 'q')) & 0xffffffff)
                 order = list(range(len(g)))
                 r.shuffle(order)
                 cases.append('%sn=5 edges=%s sym=all%s' % (prefix, edges_str(g), extra))
                 cases.append('%sn=5 edges=%s sym=all order=%s%s' % (prefix, edges_str(g), ','.join(map(str, order)), extra))
     if tier == 'thorough' and g5:
         for g in iso_classes(5, max_m=g5_max, min_m=4):
-            r = rng(hash((seed, prefix, tuple(g), 'o')) & 0xffffffff)
+            r = rng(shash((seed, prefix, tuple(g), 'o')) & 0xffffffff)
             order = list(range(len(g)))
             r.shuffle(order)
             if len(g) <= g5_full:
